@@ -22,7 +22,10 @@ class C13Pairs(Scenario):
         else:
             cfg = structs.BloomSubject.gen_cfg(rng, small=True)
         rel = rng.weighted([(5, "compatible"), (2, "diff_est"), (2, "diff_rate"), (2, "diff_hash"), (1, "identical"),
-                            (2, "near"), (2, "same_bits")])
+                            (2, "near"), (2, "same_bits"), (2, "same_geom")])
+        if kind in ("bloom", "counting") and rng.chance(1, 40):
+            cfg["est"], cfg["rate"] = rng.choice(((5000, 0.01), (4000, 0.02), (7000, 0.05)))  # more than 32768 bits
+            cfg["large"] = True
         cfg.update({"kind": kind, "rel": rel, "a_disk": kind == "bloom" and rng.chance(1, 3),
                     "b_disk": kind == "bloom" and rng.chance(1, 3), "steps": rng.between(2, self.max_steps),
                     "universe": rng.choice((4, 8, 16)), "hseed2": rng.below(1 << 16),
@@ -66,7 +69,7 @@ class C13Pairs(Scenario):
                 return (sz, hf), False
             elif rel == "diff_hash":
                 hf = self.hf2
-            return (sz, hf), rel in ("compatible", "identical", "near", "same_bits")  # Bloom-only relations count as compatible
+            return (sz, hf), rel in ("compatible", "identical", "near", "same_bits", "same_geom")  # Bloom-only relations: compatible
         est, rate, hf = cfg["est"], cfg["rate"], self.env.hf
         if rel == "diff_est":
             est = est + 1 + est // 2
@@ -74,6 +77,21 @@ class C13Pairs(Scenario):
             rate = rate / 3.0
         elif rel == "diff_hash":
             hf = self.hf2
+        elif rel == "same_geom":
+            # different (est_elements, rate) that give exactly the SAME number of bits and hashes: compatible
+            m1, k1 = common.geometry(cfg["est"], cfg["rate"])
+            found = None
+            for e2 in list(range(cfg["est"] + 1, cfg["est"] + 6)) + list(range(max(1, cfg["est"] - 5), cfg["est"])):
+                for i in range(1, 400):
+                    r2 = 0.00125 * i
+                    if common.geometry(e2, r2) == (m1, k1):
+                        found = (e2, r2)
+                        break
+                if found:
+                    break
+            if found:
+                est, rate = found
+                self.ctx.probe("same_geometry_other_parameters")
         elif rel == "same_bits":
             # another sizing with exactly the same number of bits / cells but a different number of hashes
             m1, k1 = common.geometry(cfg["est"], cfg["rate"])
